@@ -207,8 +207,13 @@ class CallsMixin:
             if v.ty[0] in ("pylist", "tuple"):
                 return [(s1, mkint(len(v.py)))]
             if v.ty[0] == "dyn":
-                fnm = z3.Function("dyn_len", DYN, z3.IntSort()); s1.assume(fnm(v.term) >= 0)
-                return [(s1, V(("int",), fnm(v.term)))]
+                s1.oblige("len()-of-json-list-or-dict", z3.Or(dyn_is_list(v.term), dyn_is_dict(v.term)), "implicit")
+                ll = s1.length(dyn_ref(v.term), ("dyn",))
+                dct = V(("dict", ("str",), ("dyn",)), dyn_ref(v.term))
+                cnt = z3.Function("dict_size_String", z3.ArraySort(z3.StringSort(), z3.BoolSort()), z3.IntSort())
+                sz = cnt(s1.dict_dom(dct)); k = z3.Const(fresh_name("k_sz"), z3.StringSort())
+                s1.assume(z3.And(ll >= 0, sz >= 0, (sz == 0) == z3.ForAll([k], z3.Not(z3.Select(s1.dict_dom(dct), k)))))
+                return [(s1, V(("int",), z3.If(dyn_is_list(v.term), ll, sz)))]
             raise Unsupported(f"len of {v.ty}")
         if n == "range":
             args = [self.as_int(p, s1) for p in pos]
@@ -487,6 +492,8 @@ class CallsMixin:
                 return self.call_heapq(e, f.attr, st, d)
             if mod == "warnings":
                 return [(st, NONE)]
+            if mod == "json" and f.attr == "dumps":
+                return [(s1, V(("str",), z3.Const(fresh_name("json_text"), z3.StringSort()))) for s1, _p, _k in self.eval_args(e, st, d)]
             if mod == "random" and f.attr == "Random":
                 out = []
                 for s1, pos, kw in self.eval_args(e, st, d):
@@ -718,8 +725,12 @@ class CallsMixin:
                 raise Unsupported("append to an untyped list (annotate the list)")
             if v.ty[0] == "tuple":
                 for j, comp in enumerate(v.py):
-                    g = st.gh(f"tup{j}:{sort_of(comp.ty)}", lambda c=comp: z3.ArraySort(REF, z3.ArraySort(z3.IntSort(), sort_of(c.ty))))
-                    st.set_gh(f"tup{j}:{sort_of(comp.ty)}", z3.Store(g, r, z3.Store(z3.Select(g, r), n, comp.term)))
+                    try:
+                        srt = sort_of(comp.ty)
+                    except Unsupported:
+                        continue       # components without a first-order value (bound methods, literal dicts) are visible only to ghost hooks
+                    g = st.gh(f"tup{j}:{srt}", lambda c=comp: z3.ArraySort(REF, z3.ArraySort(z3.IntSort(), sort_of(c.ty))))
+                    st.set_gh(f"tup{j}:{srt}", z3.Store(g, r, z3.Store(z3.Select(g, r), n, comp.term)))
                 if ("hook", "tuple-append", self.current) in self.specs:
                     self.specs[("hook", "tuple-append", self.current)](self, st, recv, n, v)
                 return [(st, NONE)]
